@@ -505,6 +505,10 @@ func docStreams(c *Ctx, o docOpts, f func(stream string, doc []byte)) {
 	if o.random > 0 {
 		frag := []string{"#id", ".c", "k=v", "k=\"v\"", "k='v'", "k=[1,2]", "k=[1,", "k=", "k", "=", "[", ",", "\"", "}", "{", " ", "data-x=1", "width=3", "1", "-", "k=1.5e", "k=\\\"", "é"}
 		frag = append(frag, attrFrags...)
+		// names that pass the element filters, with values of every type
+		for k := 0; k < 4; k++ {
+			frag = append(frag, "tabindex=2", "hidden=true", "data-n=1.5", "data-b=false", "data-z=-3e2", "lang=en", "title=x", "dir=ltr", ".intro", "#top", "data-s=\"q r\"", "data-l=[1,a]")
+		}
 		for i := 0; i < o.random/4; i++ {
 			d := c.R.PickS([]string{"# t {", "## t {", "t {", "```go {", "# t {#a} {", "> # q {", "- # l {"})
 			for k := c.R.Intn(6); k > 0; k-- {
